@@ -36,6 +36,8 @@ def list_jobs():
     jobs.append(("effects:ModelingUpdate.__init__", "effects"))
     jobs.append(("chain:optimize_attr_updates_chain", "chain"))
     jobs += [(j, "timebuilder") for j in TIMEBUILDER_JOBS]
+    from . import graph_jobs
+    jobs += graph_jobs.list_jobs()
     return jobs
 
 
@@ -205,6 +207,9 @@ def run(job_id, st, rlimit):
     if job_id.startswith("effects:"): return effects_job(job_id, st, rlimit)
     if job_id.startswith("chain:"): return chain_job(job_id, st, rlimit)
     if job_id.startswith("timebuilder:"): return timebuilder_job(job_id, st, rlimit)
+    if job_id.startswith("graph:"):
+        from . import graph_jobs
+        return graph_jobs.run(job_id, st, rlimit)
     raise KeyError(job_id)
 
 
